@@ -1,5 +1,6 @@
 use crate::error::ZervError;
 use crate::version::Zerv;
+use crate::version::zerv::zerv_ron_options;
 
 pub struct InputFormatHandler;
 
@@ -16,7 +17,7 @@ impl InputFormatHandler {
         }
 
         // Try to parse as RON with detailed error information
-        ron::from_str::<Zerv>(trimmed_input).map_err(|e| {
+        zerv_ron_options().from_str::<Zerv>(trimmed_input).map_err(|e| {
             ZervError::StdinError(format!(
                 "Invalid Zerv RON format: {e}. Expected format: (vars: {{...}}, schema: {{...}})"
             ))
